@@ -201,3 +201,7 @@ def run(P: Program, R: Report, tier: str) -> None:
     _, res_u = A.run(fu)
     release_before_claim(R, fu, res_u, "R08.6")
     own_pixels_only(P, R, "R08.7")
+    # ---- R08.8 a query of the data model never answers from a memo that some writer forgets to drop
+    from .memo import no_stale_memo
+
+    no_stale_memo(P, R, "R08.8")
